@@ -5,7 +5,8 @@ Model of the operating system (stated in the evidence): a path exists iff it is 
 of a member (directories of existing files exist); glob.glob(pattern) returns the existing paths whose segments
 match the pattern's segments one by one, where '*' matches any run of characters except '/', but a segment
 pattern that does not start with '.' never matches a name starting with '.' (glob's hidden-file rule).
-Patterns with '?' or '[' (fnmatch classes) are outside the model: the obligations exclude them.
+Patterns with '?' or '[' are matched with fnmatch's classes, as Python's glob does (only the known-finding obligation
+C11-magic reaches them; the other obligations exclude such names).
 """
 from __future__ import annotations
 
@@ -31,6 +32,11 @@ def existing() -> List[str]:
 def seg_match(pat: str, name: str) -> bool:
     if name.startswith(".") and not pat.startswith("."):
         return False
+    if "[" in pat or "?" in pat:
+        # fnmatch classes, as Python's glob applies them (concrete pattern; used by the known-finding obligation only)
+        import fnmatch
+        import re
+        return re.fullmatch(fnmatch.translate(pat), name) is not None
     return glob_ref.seg_match(pat, name)
 
 
